@@ -18,6 +18,9 @@ MCAnchors == { <<1, 1>>, <<3, 5>>, <<MaxCol, MaxRow>> }
 MCOffCols == {0, 1, -1, 3, MaxCol - 1, 1 - MaxCol, MaxCol, 0 - MaxCol, 40000, -40000}
 MCOffRows == {0, 1, -1, 4, MaxRow - 1, 1 - MaxRow, MaxRow, 0 - MaxRow, 2000000, -2000000}
 MCSpans == { <<0, 0>>, <<1, 0>>, <<0, 2>>, <<2, 1>> }
+\* corner offsets of a relative range anchored at the walking cell: next to a
+\* sheet edge one corner wraps and the other does not
+MCRelOffs == {-2, 0, 3}
 
 \* sheet names: all words of at most 3 characters over
 \*   A  1  space  apostrophe  !  -
